@@ -12,7 +12,7 @@ import re
 
 from common import Infra, harness_json, log, marker_json, run_tlc, seed
 
-INVARIANTS = ["TypeOK", "UniqueAccepted", "InRange", "Bounded", "NoOrphan", "Conserved", "ClosedCompletes", "RoutedById", "OnceOnly", "Delivered"]
+INVARIANTS = ["TypeOK", "UniqueAccepted", "InRange", "Bounded", "NoOrphan", "Conserved", "ClosedCompletes", "RoutedById", "OnceOnly", "Delivered", "RecycledWhenSeen"]
 
 # the tree as it stands: addInFlight re-checks duplicate / capacity under the write lock; a final frame whose id cannot
 # be released because the handler was closed meanwhile completes its request with an error
@@ -32,6 +32,11 @@ def D(k, last=True):
 C = dict(op="close")
 
 
+def R(k):
+    """poll the request the caller's k-th operation (a send) returned"""
+    return dict(op="recv", id=k)
+
+
 def configs(tier):
     """name -> N, MaxPending, setup thread, programs. Thread 'r' is the connection's single receive loop."""
     out = [
@@ -45,6 +50,10 @@ def configs(tier):
         dict(name="pages", N=1, MaxPending=2, setup="s", progs=dict(s=[M], a=[M], r=[D(1, False), D(2), D(1), D(1, False)])),
         # C10: overflow of the per-request buffer (MaxPending = 1)
         dict(name="overflow", N=2, MaxPending=1, setup="s", progs=dict(s=[M, M], a=[M], r=[D(1, False), D(1, False), D(2), D(1)])),
+        # C09: the caller sees its response and sends again at once: the id must be assignable by then (N = 1)
+        dict(name="recv-resend", N=1, MaxPending=2, setup="none", progs=dict(a=[M, R(1), M, R(1)], r=[D(1), D(1)])),
+        # C10: pages come out of the request in arrival order while more arrive
+        dict(name="recv-pages", N=1, MaxPending=2, setup="none", progs=dict(a=[M, R(1), R(1), R(1)], r=[D(1, False), D(1, False), D(1)])),
         # C16: close against the receive loop delivering a final frame, and a sender
         dict(name="close-deliver", N=2, MaxPending=1, setup="s", progs=dict(s=[M, M], r=[D(1), D(2, False)], c=[C], a=[M])),
         # C16: close against two senders and a second close
@@ -156,7 +165,7 @@ def attribute(history):
     props = set()
     if "C" in ops:
         props.add("C16")
-    if "D" in ops and "C" not in ops:
+    if ops & {"D", "R"} and "C" not in ops:
         props.add("C10")
     if ops & {"M", "E"} and "C" not in ops:
         props.add("C09")
@@ -219,8 +228,9 @@ def run_conc(scratch, h, tier, prop):
 def negative_controls(scratch):
     """The invariants are not vacuous: with the check-then-act of the tree as first found TLC must find the violation."""
     found = {}
-    for cfg, variant, inv in ((configs("quick")[0], dict(CheckUnderLock=False, CloseOnReleaseFail=True), "UniqueAccepted"),
-                              (configs("quick")[5], dict(CheckUnderLock=True, CloseOnReleaseFail=False), "NoOrphan")):
+    byname = {c["name"]: c for c in configs("quick")}
+    for cfg, variant, inv in ((byname["dup-explicit"], dict(CheckUnderLock=False, CloseOnReleaseFail=True), "UniqueAccepted"),
+                              (byname["close-deliver"], dict(CheckUnderLock=True, CloseOnReleaseFail=False), "NoOrphan")):
         _, res = explore(scratch, cfg, variant=variant, expect_violation=True)
         found[cfg["name"]] = res.violated
         if res.violated is None:
